@@ -13,6 +13,7 @@ Not modelled: MolecularData / HDF5 (oracle only).
 import OFV.Proofs.C20
 import OFV.Proofs.C20Files
 import OFV.Proofs.C20Coef
+import OFV.Proofs.C20Coef2
 import OFV.Proofs.C20Mol
 import OFV.Proofs.C20Canon
 import Mathlib.Tactic.NormNum
@@ -145,6 +146,15 @@ theorem coef_contract_int (nt : NumTables) (z : Int) (hmem : ∃ w, (intStr z, w
     (hagree : ∀ e ∈ nt.pyFloat, ∀ v, floatIntModel e.1 = some v → e.2 = v) :
     CoefOK nt (intStr z) (intGQ z) :=
   coefOK_int_of_model nt z hmem hagree
+
+/-- **coef_contract_imag_int.**  For purely imaginary integer coefficients (printed as `2j`, `-13j`) the contract `CoefOK`
+is discharged up to ONE table entry: every syntactic requirement is proved for the text `str(z) + 'j'`, the parser's sign
+handling (`-` stripped before `complex()`, result negated) is proved to give `z i`; what remains is
+`complex(str(|z|) + 'j') = |z| i` for the supplied table (checked on the real `complex` by the correspondence run) -/
+theorem coef_contract_imag_int (nt : NumTables) (z : Int)
+    (h : lookup nt.pyComplex (natStr z.natAbs ++ ['j']) = some (imagGQ z.natAbs)) :
+    CoefOK nt (imagStr z) (imagGQ z) :=
+  coefOK_imag_int nt z h
 
 /-- **molecular_data_attribute_table** (`MolecularData.save` / `load` conventions `None ↦ False ↦ None`, `int(...)`,
 `float(...)`; h5py itself is a contract): `None`, every number (zero included) and every array survive
